@@ -30,3 +30,8 @@ func (c Compiler) VerifSteps() []any {
 	}
 	return r
 }
+
+// the resolver objects the compile steps were actually wired with
+func (s StepCompileParams) VerifResolver() any        { return s.resolver }
+func (s StepCompileServices) VerifArgResolver() any   { return s.argResolver }
+func (s StepCompileDecorators) VerifArgResolver() any { return s.argResolver }
